@@ -4,10 +4,10 @@ import random
 from .. import tlc, drive, glue, project, fakevcs
 from ..core import Machinery
 
-CFG = ("INIT Init\nNEXT Next\nCONSTANTS MaxFiles = %d\n Lazy = %s\n Export = %s\nINVARIANT FailedUpdateTouchesNothing\nINVARIANT FaultMeansFailure\n"
+CFG = ("INIT Init\nNEXT Next\nCONSTANTS MaxFiles = %d\n MaxPats = 3\n Lazy = %s\n Export = %s\nINVARIANT FailedUpdateTouchesNothing\nINVARIANT FaultMeansFailure\n"
        "INVARIANT NoFaultMeansSuccess\nINVARIANT DryWritesNothing\nINVARIANT Exported\nCHECK_DEADLOCK FALSE\n")
 ENG = {"v2": ("vYYYY0M.BUILD[-TAG]", "v202101.1001-beta", "202101.1001b0"), "v1": ("{pycalver}", "v202101.1001-beta", "202101.1001b0")}
-RAWS = ["ver={version}", "pep={pep440_version}"]
+RAWS = ["ver={version}", "pep={pep440_version}", "rel <{version}>"]
 
 
 def replay(job):
@@ -32,10 +32,10 @@ def replay(job):
             lines = ["# file %d" % (k + 1)]
             for j in range(case["pats"][k]):
                 if fault["kind"] == "nomatch" and fault["k"] == k + 1 and fault["j"] == j + 1:
-                    lines.append(["ver=", "pep="][j] + "none here")
+                    lines.append(["ver=", "pep=", "rel "][j] + "none here")
                 else:
                     # a matching pattern may occur on several lines (what counts is that every PATTERN is found, not how many matches there are)
-                    lines += [["ver=" + old, "pep=" + pep][j]] * rng.choice([1, 1, 2, 3])
+                    lines += [["ver=" + old, "pep=" + pep, "rel <%s>" % old][j]] * rng.choice([1, 1, 2, 3])
             proj.write(name, "\n".join(lines) + "\n")
         proj.write("other.txt", "unrelated %s\n" % old)
         fv = None
@@ -66,7 +66,7 @@ def run(ctx):
     maxf = ctx.pick(4, 5)
     # the property's shape of the rewrite phase holds the invariants ...
     res = tlc.run(tlc.module_text("mc/MC_C06.tla"), CFG % (maxf, "FALSE", "TRUE"), name="MC_C06", workers=8, timeout=3000, xmx="8g")
-    ctx.add_design(res, "MC_C06 up to %d files x 1..2 patterns x every single fault x commit x dry x engine" % maxf)
+    ctx.add_design(res, "MC_C06 up to %d files x 1..3 patterns x every single fault x commit x dry x engine" % maxf)
     if res.violation:
         ctx.violation(dict(clause="design:" + res.violation), case=dict(state=res.trace[-2:]), check="design")
     # ... and the lazy loop (repaired defect S3) must be rejected (self-test of the invariants)
@@ -104,7 +104,7 @@ def run(ctx):
         if e["case"]["fault"]["kind"] != "none":
             ctx.nontriv(e["dbg"])
     ctx.exhaustive = not ctx.quick
-    ctx.rule = ("every terminal state of MC_C06 (projects of 1..%d files x 1..2 patterns, every single fault position, commit on/off with a fake git, dry/real, v2 and legacy engine) "
+    ctx.rule = ("every terminal state of MC_C06 (projects of 1..%d files x 1..3 patterns, every single fault position, commit on/off with a fake git, dry/real, v2 and legacy engine) "
                 "replayed against the real `update` with the config file's own entry at a varying position and matching patterns occurring on 1..3 lines; quick: all cases up to 3 files + 500 sampled larger ones; "
                 "non-trivial = cases with a fault" % maxf)
     for e in events[5:8]:
